@@ -67,7 +67,8 @@ def dfs (rs : TRules) (bt : Bool) : Pat → List Bytes → List Bytes → List F
         | some r => [⟨r, caps'⟩]
         | none => []
       | _ :: _ => dfs rs bt q caps' rest
-    if okChild rs p f left then
+    -- (a field that is literally `*` is not taken for the literal transition: repair 0275669)
+    if f != starB && okChild rs p f left then
       visit (p ++ [f]) caps ++
         (if bt && okChild rs p starB left then visit (p ++ [starB]) (caps ++ [f]) else [])
     else if okChild rs p starB left then visit (p ++ [starB]) (caps ++ [f])
